@@ -183,6 +183,79 @@ def same_shape_stages(m1, m2):
     union_check(inst, master, parts, lambda parts: [], ca.MX(0.0))
 
 
+def native_clone_with_signal(method, order):
+    """stages created from a template with a grid='bspline' variable equal directly declared ones -- on the real code (the
+    b-spline pipeline inside a multi-stage clone is not modelled row by row): bounded native stand-in"""
+    import json, os, subprocess
+    c = ctx()
+    VERIF = os.path.dirname(os.path.dirname(os.path.abspath(__file__)))
+    repo = os.environ.get("VERIF_REPO", "/repo")
+    env = dict(os.environ, PYTHONPATH=repo + os.pathsep + VERIF, PYTHONDONTWRITEBYTECODE="1")
+    p = subprocess.run([os.environ.get("VERIF_NATIVE_PY", "/venv/bin/python"), os.path.join(VERIF, "replay", "run.py")], input=json.dumps(dict(harness="clone_signal_probe", method=method, order=order)),
+                       capture_output=True, text=True, env=env, timeout=600, cwd=os.path.join(VERIF, "out"))
+    res = json.loads(p.stdout.strip().splitlines()[-1]) if p.stdout.strip() else dict(status="error", detail=p.stderr[-300:])
+    name = "stage:Stage.clone:ensures:template-with-b-spline-signal-equals-direct-declaration[%s,order=%d]" % (method, order)
+    if res.get("status") == "not-reproduced":
+        c.ok(name, detail=res.get("detail"), backend="enumerated-native")
+    elif res.get("status") == "confirmed":
+        c.fail(name, str(res.get("observed"))[:200])
+    else:
+        raise RuntimeError("native clone harness failed: %s" % str(res)[:300])
+
+
+def generated_clones(i, prop="C12"):
+    """a generated specification (contracts/randspec.py) declared ONCE as a template and instantiated twice: every clone
+    owes the NLP exactly what the specification's own oracle demands (dynamics, constraints where declared incl. the
+    include_first / include_last qualifiers, objective, horizon symbols of ITS stage), and keeps ITS OWN parameter values"""
+    from . import randspec
+    kw = randspec.make(i)
+    return clones_of(kw, "%s/R%03d-%s-two-clones" % (prop, i, kw["method"]))
+
+
+def clones_of(kw, inst):
+    from rockit import Ocp
+    c = ctx()
+    tmpl = Spec(**kw)
+    tmpl.build(template=True)
+    template = tmpl.ocp
+    master = Ocp()
+    clones_ = [master.stage(template), master.stage(template)]
+    pvs = []
+    for j, cl in enumerate(clones_):
+        pv = {}
+        for kind in ("", "control", "control+"):
+            for q, psym in enumerate(tmpl.sym[("p", kind)]):
+                cols = {"": 1, "control": tmpl.N, "control+": tmpl.N + 1}[kind]
+                val = unknown("clone%d_pval_%s%d" % (j, kind.replace("+", "plus"), q), psym.shape[0], psym.shape[1] * cols)
+                cl.set_value(psym, val)
+                pv[(kind, q)] = val
+        for key in ("T", "t0"):
+            if "p_" + key in tmpl.sym:
+                val = unknown("clone%d_pval_%s" % (j, key), positive=(key == "T"))
+                cl.set_value(tmpl.sym["p_" + key], val)
+                pv[key] = val
+        pvs.append(pv)
+    master.solver("ipopt")
+    master._transcribed
+    aug = master._augmented
+    parts = [(tmpl.bound_to(aug._stages[j], pvals=pvs[j]), aug._stages[j]._method) for j in range(2)]
+    union_check(inst, master, parts, lambda parts: [], ca.MX(0.0), grids=True)
+    opti = aug._method.opti
+    for j, (sp, meth) in enumerate(parts):
+        for kind, lst in (("", meth.P), ("control", meth.P_control), ("control+", meth.P_control_plus)):
+            for q, P in enumerate(lst):
+                if (kind, q) not in sp.pvals:
+                    continue
+                members = [P] if kind == "" else list(P)
+                want = ca.DM(sp.pvals[(kind, q)])
+                ncol = ca.MX(members[0]).shape[1]
+                for k_, sym in enumerate(members):
+                    sym = ca.MX(sym)
+                    got = ca.DM._raw(sym.rows, sym.cols, [opti._pval.get(str(x)) for x in sym.e])
+                    nlp.prove_equal("%s|stage:Stage.clone:ensures:clone-%d-keeps-its-own-value[%s%d,member %d]" % (inst, j, kind or "global", q, k_), got,
+                                    want if kind == "" else want[:, k_ * ncol:(k_ + 1) * ncol])
+
+
 def generated_two_stages(i, prop="C12"):
     """two generated specifications (contracts/randspec.py) as the two stages of one master OCP: the NLP is the disjoint
     union of what each stage's own oracle demands, the objective the sum"""
@@ -263,16 +336,40 @@ def guarded(fn, inst):
     return run
 
 
+def generated_clone_tasks(tier, prop, select=None):
+    from . import randspec
+    out = []
+    for i in range(90 if tier == "thorough" else 30):
+        kw = randspec.make(i)
+        if select and not select(kw):
+            continue
+        inst = "%s/R%03d-%s-two-clones" % (prop, i, kw["method"])
+        out.append(Task(inst, guarded(lambda i=i: generated_clones(i, prop), inst), kind="bounded", bound=dict(generated=i, clones=2)))
+    return out
+
+
 def tasks(tier):
     out = [Task("C12/clone-field-completeness", clone_field_completeness, kind="structural")]
     for ms in (("MS", "DC"), ("SS", "MS"), ("DC", "SS")):
         for free in (False, True):
             inst = "C12/two-stages[%s+%s%s]" % (ms[0], ms[1], ",T2 free" if free else "")
             out.append(Task(inst, guarded(lambda ms=ms, free=free: two_stages(ms, free), inst), kind="bounded", bound=dict(stages=ms, free_T_second=free)))
+    for m, order in (("MS", 2), ("DC", 1)):
+        out.append(Task("C12/clone-with-signal[%s,order=%d]" % (m, order), lambda m=m, order=order: native_clone_with_signal(m, order), kind="enumerated",
+                        replay=dict(harness="clone_signal_probe", method=m, order=order), bound=dict(method=m, order=order, stages=2)))
     for m1, m2 in (("MS", "MS"), ("SS", "SS"), ("MS", "SS"), ("DC", "DC")):
         inst = "C12/same-shape-stages[%s+%s]" % (m1, m2)
         out.append(Task(inst, guarded(lambda m1=m1, m2=m2: same_shape_stages(m1, m2), inst), kind="bounded", bound=dict(stages=[m1, m2], shapes="identical", dynamics="different"),
                         replay=dict(harness="two_stage_probe", same_shape=[m1, m2])))
+    # horizon given by the stage's OWN parameter / variable symbol, shared by all clones of the template, used in expressions
+    for m in ("MS", "SS", "DC"):
+        for Tk, t0k in ((("param",), ("param",)), (("param",), ("fixed", 0.5)), (("free", 1.5), ("param",))):
+            inst = "C12/clones-own-horizon-symbol[%s,T=%s,t0=%s]" % (m, Tk[0], t0k[0])
+            kw = dict(method=m, N=2, M=2, degree=2, T=Tk, t0=t0k, params={"": [1]}, ode=E("f", None, ("x", "u", "t", "p")),
+                      constraints=[Con(E("ct", 1, ("x", "T", "t0", "t")), "le", 1.0), Con(E("cb", 1, (("at", "tf", "x"), "T", "t0")), "le", 2.0)],
+                      objective=[("at_tf", E("Mf", 1, ("x", "T", "t"))), ("value", E("VT", 1, ("T", "t0", "p")))])
+            out.append(Task(inst, guarded(lambda kw=kw, inst=inst: clones_of(dict(kw), inst), inst), kind="bounded", bound=dict(method=m, T=Tk[0], t0=t0k[0], clones=2)))
+    out += generated_clone_tasks(tier, "C12")
     for i in range(60 if tier == "thorough" else 20):
         inst = "C12/R%03d-two-generated-stages" % i
         out.append(Task(inst, guarded(lambda i=i: generated_two_stages(i), inst), kind="bounded", bound=dict(generated=[2 * i, 2 * i + 1]), replay=dict(harness="two_stage_probe", index=i)))
